@@ -67,6 +67,92 @@ func runC18(p *chk.Prog, r *chk.Report) {
 	c18Lists(p, r)
 	c18MapOrder(p, r)
 	c18Compare(p, r)
+	c18Normalise(p, r)
+	c18MapExit(p, r)
+}
+
+// c18Normalise: validateLabelSelectorDuplicate is not pure - it sorts the Values of every match expression of the
+// listed objects in place, which is what makes the converted labels.Selector independent of the order in which the
+// values were written. A conversion of the same selectors must therefore come after it.
+func c18Normalise(p *chk.Prog, r *chk.Report) {
+	x := r.Rule("NORMALISE-BEFORE-CONVERT", "B path (ordering)", "in every function of internal/config that calls validateLabelSelectorDuplicate(X, …) and converts elements of the same X with metav1.LabelSelectorAsSelector, the validation (which sorts the match-expression values in place) is on every path before the conversion", 3)
+	for _, f := range p.FuncsIn(cfgPkg) {
+		g := f.Graph()
+		vals := g.FindPat("validateLabelSelectorDuplicate(X, _)")
+		if len(vals) == 0 {
+			continue
+		}
+		for _, cv := range g.FindPat("metav1.LabelSelectorAsSelector(&E)") {
+			el := cv.Node.(*ast.CallExpr).Args[0].(*ast.UnaryExpr).X
+			for _, v := range vals {
+				coll := v.Node.(*ast.CallExpr).Args[0]
+				if !elementOf(f, func(e ast.Expr) bool { return f.SameExpr(e, coll) })(el) {
+					continue
+				}
+				vt := v.Top
+				w := g.MustPass(chk.Site{}, func(n ast.Node) bool { return n == cv.Top }, false, func(n ast.Node) bool { return n == vt })
+				x.Check("validated-first:"+f.Name()+":"+types.ExprString(coll), cv.Pos(), !w.Found, "",
+					"selectors are converted before validateLabelSelectorDuplicate normalised them: the same snapshot yields configurations that differ under reflect.DeepEqual (value order), so an unchanged configuration is re-applied")
+			}
+		}
+	}
+}
+
+// c18MapExit: leaving a range over a Go map early is order-independent only when nothing more can change: in a loop
+// that only raises boolean flags, a break is allowed once every flag the loop can raise is already true.
+func c18MapExit(p *chk.Prog, r *chk.Report) {
+	x := r.Rule("MAP-EARLY-EXIT", "A map order", "in internal/config a `break` out of a range over a map whose body only sets boolean flags to true is dominated by all of those flags being true (otherwise which elements were seen depends on Go's random iteration order)", 1)
+	for _, f := range p.FuncsIn(cfgPkg) {
+		g := f.Graph()
+		for _, rs := range f.RangeLoops(func(e ast.Expr) bool {
+			t := f.Info().TypeOf(e)
+			if t == nil {
+				return false
+			}
+			_, isMap := t.Underlying().(*types.Map)
+			return isMap
+		}) {
+			// flags raised in the body
+			flags := map[types.Object]bool{}
+			other := false
+			ast.Inspect(rs.Body, func(n ast.Node) bool {
+				switch s := n.(type) {
+				case *ast.AssignStmt:
+					for i, l := range s.Lhs {
+						id, ok := l.(*ast.Ident)
+						if ok && i < len(s.Rhs) && len(s.Lhs) == len(s.Rhs) && f.IsConstBool(s.Rhs[i], true) {
+							flags[f.ObjOf(id)] = true
+						} else if s.Tok == token.ASSIGN {
+							other = true
+						}
+					}
+				case *ast.IncDecStmt, *ast.ReturnStmt:
+					other = true
+				}
+				return true
+			})
+			if other || len(flags) == 0 {
+				continue
+			}
+			for _, e := range g.LoopIteration(rs, chk.GNever()) {
+				if !e.Break {
+					continue
+				}
+				var all []chk.Guard
+				for fl := range flags {
+					all = append(all, chk.GBool(true, f.IsObj(fl)))
+				}
+				ok := true
+				for _, e2 := range g.LoopIteration(rs, chk.GAnd(all...)) {
+					if e2.Break && !e2.OK {
+						ok = false
+					}
+				}
+				x.Check("break-only-when-saturated:"+f.Name(), rs.Pos(), ok, "", "the loop over a map stops before every flag it can raise is raised: the flags that are set depend on the iteration order")
+				break
+			}
+		}
+	}
 }
 
 // sortIdxRule: SORT-IDX for every sort.Slice call of the module.
